@@ -433,6 +433,14 @@ impl<T: Qcow2IoOps> Qcow2Dev<T> {
             let _ = self.alloc_and_map_cluster(&split, &mut l2_table).await?;
             l2_handle.set_dirty(true);
             self.mark_need_flush(true);
+
+            // the preallocation of one zero cluster is replaced by the new
+            // cluster, so drop its reference
+            if mapping.source == MappingSource::Zero {
+                if let Some(old) = mapping.cluster_offset {
+                    self.free_clusters(old, 1).await?;
+                }
+            }
         }
         Ok(l2_table.get_entry(&self.info, &split))
     }
@@ -530,7 +538,16 @@ impl<T: Qcow2IoOps> Qcow2Dev<T> {
 
                     // this is one new cluster
                     self.mark_new_cluster(l2_off >> info.cluster_bits()).await;
+
                     let _ = l2_table.map_cluster(split.l2_slice_index(info), l2_off);
+
+                    // the preallocation of one zero cluster is replaced by the
+                    // new cluster, so drop its reference
+                    if mapping.source == MappingSource::Zero {
+                        if let Some(old) = mapping.cluster_offset {
+                            self.free_clusters(old, 1).await?;
+                        }
+                    }
 
                     //load new entry
                     let entry = l2_table.get_entry(info, &split);
